@@ -240,7 +240,8 @@ Definition snapshot_tasks (g n_coins n_msgs n_blobs : N) (contracts : list (N * 
     (5, chunks gs (plain_entries (sumN (map fst contracts))));
     (6, chunks gs (plain_entries (sumN (map snd contracts))));
     (13, chunks gs (plain_entries n_msgs));
-    (14, chunks gs (plain_entries n_coins)) ].
+    (14, chunks gs (plain_entries n_coins));
+    (18, chunks gs (plain_entries nc)) ].
 
 (* ------------------------------------------------------------------------------------ *)
 (* Pcheck of C40 on an observation.
